@@ -11,7 +11,8 @@
 EXTENDS Scanner, Json
 
 CONSTANTS MaxLen, Bytes1,
-          Focus        \* "all": the general chunk menu;  "description": tapes that start with a Description line
+          Focus        \* "all": the general chunk menu;  "description": tapes that start with a Description line;
+                       \* "comments": longer tapes over comments / annotations / line breaks around two directives
 
 VARIABLE st
 vars == <<st>>
@@ -31,7 +32,12 @@ DescChunks ==
   {PlainChunk(<<x>>) : x \in {10, 13, 32, 120, 40, 41, 35}}
   \cup {PlainChunk(KwBytes[k]) : k \in {"GET", "URL", "TAG", "Path", "Tags"}}
   \cup {PlainChunk(<<50,48,48>>), PlainChunk(<<71,69>>), PlainChunk(<<54,48,48>>)}      \* 200  GE  600
-Chunks == IF Focus = "description" THEN DescChunks ELSE AllChunks
+\* comments and annotations around directives: '#', '##', '###' blocks, '//', '/* */', every line-break convention mixed
+CommentChunks ==
+  {PlainChunk(<<x>>) : x \in {10, 13, 32, 35, 47, 42, 120}}
+  \cup {PlainChunk(KwBytes[k]) : k \in {"GET", "URL"}}
+  \cup {PlainChunk(<<47,97>>), PlainChunk(<<35,35,35>>)}                                \* /a  ###
+Chunks == IF Focus = "description" THEN DescChunks ELSE IF Focus = "comments" THEN CommentChunks ELSE AllChunks
 Start == IF Focus = "description" THEN FeedChunk(Init0, PlainChunk(KwBytes["Description"] \o <<10>>)) ELSE Init0
 
 Init == st = Start
